@@ -729,6 +729,16 @@ func AddBoundAlias(rng *rand.Rand, cs []bq.Clause) ([]bq.Clause, bool) {
 	case 1:
 		hi = ""
 	}
+	if rng.Intn(3) == 0 {
+		// the bound in the object position: the object must be a predicate with
+		// that id anchored inside the limits
+		c.P = bq.B("?p" + sfx)
+		c.O = bq.PBdB([]string{"p", "q"}[rng.Intn(2)], lo, hi)
+		if rng.Intn(2) == 0 {
+			c.OAt = "?oat" + sfx
+		}
+		return append(append([]bq.Clause{}, cs...), c), true
+	}
 	c.P = bq.PBdB([]string{"p", "q"}[rng.Intn(2)], lo, hi)
 	if rng.Intn(2) == 0 {
 		c.PAt = "?pat" + sfx
